@@ -290,6 +290,30 @@ Theorem C12_like_written_zero_iff :
 Proof. exact like_written_zero_iff. Qed.
 Print Assumptions C12_like_written_zero_iff.
 
+(* the same with FILL = n (...) and TRCL = (...) allowed on any card of the chain
+   (the lattice form FILL = i:j ... excepted): [loc_imps] reads each card's
+   tokens with every keyword taking its arguments locally - IMP + number; inert
+   words, U, RHO, MAT, LAT (li_any); FILL / TRCL with their numeric parameters up
+   to the next token that does not start like a number (li_num, lemmas
+   fill_local / trcl_local) - and every card after the base starts with a
+   keyword (hd_not_num). scan_imps lists are loc_imps (scan_imps_local). *)
+Theorem C12_like_written_local_zero_iff :
+  forall (P : prims R) (imp_cards : list (string * list string)) (cards : list card)
+         (lats : list (Z * list (Z * Z))) (cells : list (Z * cell (T:=R))) (skipped : list Z)
+         (r : nat) (key : Z) (b : body) (opts : string) (l : list string)
+         (ess : list (list (imp_entry (T:=R)))),
+    parse_cells RS P imp_cards cards lats = Ok (cells, skipped) ->
+    nth_error (dict_of Z.eqb cards) r = Some (key, (b, opts)) ->
+    chain_cards (S (List.length (dict_of Z.eqb cards))) (dict_of Z.eqb cards) b = Ok l ->
+    Forall (fun c => clean_opts (snd (snd c))) (dict_of Z.eqb cards) ->
+    Forall2 (fun o es => loc_imps RS P (option_tokens o) es) (rev l ++ [opts]) ess ->
+    Forall (fun o => hd_not_num (option_tokens o)) (tl (rev l ++ [opts])) ->
+    List.concat ess <> [] -> Forall (fun e => 0 <= snd e)%R (List.concat ess) ->
+    (In key skipped <->
+     forall p, In p (named (List.concat ess)) -> last_value p (List.concat ess) = Some 0%R).
+Proof. exact like_written_local_zero_iff. Qed.
+Print Assumptions C12_like_written_local_zero_iff.
+
 (* explicit card *)
 Theorem C12_cell_card_zero_iff :
   forall (P : prims R) (imp_cards : list (string * list string)) (cards : list card)
@@ -504,3 +528,10 @@ Example C12_example_deck_text :
   exists cells, parse_deck_text RS wP ctexts dtexts [] = Ok (cells, [2%Z]) /\
                 conv_keys RS cells = [1%Z; 3%Z].
 Proof. exact C12_example_deck_text_ok. Qed.
+
+(* the hypotheses of C12_like_written_local_zero_iff with a TRCL on the base card *)
+Example C12_example_like_trcl :
+  loc_imps RS wP (option_tokens "imp:n=1 trcl=(1 0 0)") [(["n"], 1%R)] /\
+  loc_imps RS wP (option_tokens "imp:n=0") [(["n"], 0%R)] /\
+  hd_not_num (option_tokens "imp:n=0").
+Proof. exact C12_example_like_trcl_ok. Qed.
